@@ -221,9 +221,12 @@ def keep (FS : List FnDef) (live : List Bytes) : List FnDef := FS.filter (fun f 
 /-- decidable well-formedness of a core program (what the Layer-B theorem assumes):
     distinct function names, none called `@`, identifier-only parameter patterns that do not
     reuse function names, admissible operator codes, and a call-closed live set. -/
+def nodupB : List Bytes → Bool
+  | [] => true
+  | x :: xs => !xs.contains x && nodupB xs
+
 def fnsWF (FS : List FnDef) : Bool :=
-  let names := FS.map (·.name)
-  names.eraseDups.length == names.length &&
+  nodupB (FS.map (·.name)) &&
   FS.all (fun f => f.name != [64] && Lang.patOk f.params && exprOk f.body &&
     FS.all (fun g => (Lang.nameLookup g.name f.params).isNone))
 
